@@ -46,14 +46,14 @@ double StepFunction(double x)
 
 double Round(double N, unsigned int digits)
 {
-	if(N == 0)
-		return 0;
 	unsigned int digits_max = 7;
 	if(digits > digits_max)
 	{
 		std::cerr << "Error in libphysica::Round(): Significant digits > " << digits_max << "." << std::endl;
 		std::exit(EXIT_FAILURE);
 	}
+	if(N == 0)
+		return 0;
 	// Make the argument a positive number.
 	double sign = Sign(N);
 	N *= sign;
